@@ -48,6 +48,20 @@ pub fn execute(sc: &MuxScenario, skip: Option<&[bool]>, st: &mut Stats) -> MuxOu
     for r in &run.results {
         st.case_digest = mix(st.case_digest, hash_str(&r.code()));
     }
+    // a write_end that failed (sink fault) followed by further calls of the same history
+    let mut failed_end = false;
+    for (i, op) in sc.ops.iter().enumerate() {
+        if let (Op::End, Some(res)) = (op, run.results.get(i + 1)) {
+            match res {
+                CallResult::Err(_) => failed_end = true,
+                CallResult::Ok if failed_end => st.inc("probe.write_end_retried_after_failure"),
+                _ => {}
+            }
+        }
+    }
+    if failed_end {
+        st.inc("probe.write_end_failed");
+    }
     MuxOutput { sim, run }
 }
 
@@ -77,7 +91,7 @@ pub fn check_calls(prop: &str, sc: &MuxScenario, run: &MuxRun, out: &mut Vec<Vio
         }
         return false;
     }
-    if let Some(last) = run.results.last() {
+    if let Some(last) = run.results.iter().rev().find(|r| !matches!(r, CallResult::NotRun)) {
         if let CallResult::Err(e) = last {
             // a write_end that fails because the sink failed is the sink's fault, not a verdict
             let injected = e.variant == "IoError";
